@@ -98,3 +98,12 @@ pub(crate) extern "C" fn mock_foreign_marker_id() -> usize {
 
 #[cfg(doctest)]
 doc_comment::doctest!("../README.md", readme_example_test);
+
+/// Verification hook (add-only; compiled only with `--cfg datafusion_verif`):
+/// re-exports the FFI metric enums, which live in a crate-private module.
+#[cfg(datafusion_verif)]
+pub mod verif {
+    pub use crate::physical_expr::metrics::{
+        FFI_MetricCategory, FFI_MetricType, FFI_RatioMergeStrategy,
+    };
+}
